@@ -287,3 +287,45 @@ package transport
 //@   assert at return end lastret("CompareAndSwapUint32") == 0 && t.lastPingAt == now
 //@   assert at return end Z(t.pingStrikes) == (Z(old(t.pingStrikes)) + ite(old(t.lastPingAt).Add(minPingGap(t, ns)).After(now), Z(1), Z(0))) % 256
 //@   assert at return end (ncalls("put") == 2) == (t.pingStrikes > 2)
+
+// ---- C13: the client's stream quota ledger ------------------------------------------------------
+//
+// streamQuota is how many more streams may be opened under the server's latest
+// MAX_CONCURRENT_STREAMS; it goes negative when the server lowers the limit below
+// the number of open streams, and that debt is what keeps new streams out until
+// enough of them have closed. The three closures run inside the control buffer's
+// critical section (executeAndPut), one at a time.
+//   NewStream$3       = checkForStreamQuota
+//   closeStream$2     = addBackStreamQuota
+//   handleSettings$2  = updateStreamQuota
+
+//@ monitor http2Client.mu protects state, activeStreams
+
+// A stream is admitted (gets an id) only while quota is positive, and takes
+// exactly one unit of it; ids are handed out in steps of two. With no quota
+// nothing is consumed and the caller is registered as waiting (once).
+//@ func (*http2Client).NewStream$3
+//@   prop C13
+//@   requires t != nil && hdr != nil && s != nil
+//@   ensures implies(old(t.streamQuota) <= 0, !result && t.streamQuota == old(t.streamQuota) && t.nextID == old(t.nextID))
+//@   ensures implies(old(t.streamQuota) <= 0, t.waitingStreams == old(t.waitingStreams) + ite(old(firstTry), uint32(1), uint32(0)))
+//@   ensures implies(old(t.streamQuota) > 0, t.streamQuota == old(t.streamQuota) - 1 && t.waitingStreams == old(t.waitingStreams) - ite(old(firstTry), uint32(0), uint32(1)))
+//@   ensures implies(result, old(t.streamQuota) > 0 && hdr.streamID == old(t.nextID) && s.id == old(t.nextID) && t.nextID == old(t.nextID) + 2)
+//@   ensures implies(!result, t.nextID == old(t.nextID))
+
+// A closed stream gives back exactly one unit.
+//@ func (*http2Client).closeStream$2
+//@   prop C13
+//@   requires t != nil
+//@   ensures result && t.streamQuota == old(t.streamQuota) + 1 && t.waitingStreams == old(t.waitingStreams)
+
+// A new limit changes the quota by exactly the difference of the limits (never
+// forgetting a debt), and all waiters are woken (channel closed and replaced)
+// exactly when the limit grew while someone was waiting.
+//@ func (*http2Client).handleSettings$2
+//@   prop C13
+//@   requires t != nil && maxStreams != nil && Z(t.streamQuota) >= -8589934592 && Z(t.streamQuota) <= 8589934592
+//@   assert at call close#1 Z(*maxStreams) > Z(old(t.maxConcurrentStreams)) && t.waitingStreams > 0
+//@   ensures Z(t.streamQuota) == Z(old(t.streamQuota)) + Z(*maxStreams) - Z(old(t.maxConcurrentStreams))
+//@   ensures t.maxConcurrentStreams == *maxStreams && t.waitingStreams == old(t.waitingStreams)
+//@   ensures implies(Z(*maxStreams) > Z(old(t.maxConcurrentStreams)) && t.waitingStreams > 0, ncalls("close") == 1 && fresh(t.streamsQuotaAvailable))
